@@ -73,42 +73,56 @@ def gemvT (A : Csc α) (y x : Array α) (a b : α) : MErr (Array α) :=
     | .error e => .error e
     | .ok ys => pure ys.toArray
 
+/-- the updates `_csc_symv_unsafe` performs for one stored entry `e = (row, Aij)` of column
+`col`: `y[row] += a*Aij*x[col]`, then, off the diagonal, `y[col] += a*Aij*x[row]` -/
+def symvEntry (a : α) (col : Nat) (xcol : α) (e : Nat × α) (xrow : α) : List (Nat × α) :=
+  if e.1 != col then [(e.1, a * e.2 * xcol), (col, a * e.2 * xrow)] else [(e.1, a * e.2 * xcol)]
+
+/-- the updates for column `p.2` (with `p.1 = x[p.2]`) -/
+def symvCol (A : Csc α) (x : Array α) (a : α) (p : α × Nat) : MErr (List (List (Nat × α))) :=
+  (A.col p.2).mapM (fun e => do
+    let xr ← getE x e.1 "UB: x.get_unchecked(row)"
+    if e.1 ≥ A.n then throw (.panic "UB: y.get_unchecked_mut(row)")
+    pure (symvEntry a p.2 p.1 e xr))
+
 /-- `_csc_symv_unsafe`: `y ← a·sym(A)·x + b·y`, `A` upper triangular.  The Rust code
 uses unchecked indexing: a row index `≥ n` is undefined behaviour there (`.panic "UB"`
 here; never generated). -/
-def symv (A : Csc α) (y x : Array α) (a b : α) : MErr (Array α) := do
+def symv (A : Csc α) (y x : Array α) (a b : α) : MErr (Array α) :=
   let y := Vec.scale y b
-  if x.size != A.n then throw (.panic "assert x.len == A.n")
-  if y.size != A.n then throw (.panic "assert y.len == A.n")
-  if A.n != A.m then throw (.panic "assert A.n == A.m")
-  let terms ← x.toList.zipIdx.mapM (fun (p : α × Nat) =>
-    (A.col p.2).mapM (fun e => do
-      let xr ← getE x e.1 "UB: x.get_unchecked(row)"
-      if e.1 ≥ A.n then throw (.panic "UB: y.get_unchecked_mut(row)")
-      pure (if e.1 != p.2 then [(e.1, a * e.2 * p.1), (p.2, a * e.2 * xr)]
-            else [(e.1, a * e.2 * p.1)])))
-  scatter (fun yi t => yi + t) y (terms.flatten.flatten)
+  if x.size != A.n then throw (.panic "assert x.len == A.n") else
+  if y.size != A.n then throw (.panic "assert y.len == A.n") else
+  if A.n != A.m then throw (.panic "assert A.n == A.m") else
+  match x.toList.zipIdx.mapM (symvCol A x a) with
+  | .error e => .error e
+  | .ok terms => scatter (fun yi t => yi + t) y terms.flatten.flatten
+
+/-- `_csc_quad_form`, inner loop body: state `(out, tmp1, tmp2)`, entry `e = (row, Mv)` -/
+def quadEntry (x y : Array α) (col : Nat) (xc yc : α) (st : α × α × α) (e : Nat × α) :
+    MErr (α × α × α) :=
+  if e.1 < col then do
+    let xr ← getE x e.1 "x[row]"
+    let yr ← getE y e.1 "y[row]"
+    pure (st.1, st.2.1 + e.2 * xr, st.2.2 + e.2 * yr)
+  else if e.1 == col then pure (st.1 + e.2 * xc * yc, st.2.1, st.2.2)
+  else throw (.panic "Input matrix should be triu form.")
+
+/-- `_csc_quad_form`, one column -/
+def quadCol (M : Csc α) (y x : Array α) (out : α) (col : Nat) : MErr α := do
+  let xc ← getE x col "x[col]"
+  let yc ← getE y col "y[col]"
+  let st ← (M.col col).foldlM (quadEntry x y col xc yc) (out, (0 : α), (0 : α))
+  pure (st.1 + (st.2.1 * yc + st.2.2 * xc))
 
 /-- `_csc_quad_form`: `yᵀ·sym(M)·x`, `M` upper triangular (panics on a lower entry) -/
-def quadForm (M : Csc α) (y x : Array α) : MErr α := do
-  if M.n != M.m then throw (.panic "assert n == m")
-  if x.size != M.n then throw (.panic "assert x.len == n")
-  if y.size != M.n then throw (.panic "assert y.len == n")
-  if M.colptr.size != M.n + 1 then throw (.panic "assert colptr.len == n+1")
-  if M.nzval.size != M.rowval.size then throw (.panic "assert nzval.len == rowval.len")
-  if M.n == 0 then return 0
-  (List.range M.n).foldlM (fun (out : α) col => do
-    let xc ← getE x col "x[col]"
-    let yc ← getE y col "y[col]"
-    let (out, tmp1, tmp2) ← (M.col col).foldlM (fun (st : α × α × α) e => do
-      let (out, tmp1, tmp2) := st
-      if e.1 < col then
-        let xr ← getE x e.1 "x[row]"
-        let yr ← getE y e.1 "y[row]"
-        pure (out, tmp1 + e.2 * xr, tmp2 + e.2 * yr)
-      else if e.1 == col then pure (out + e.2 * xc * yc, tmp1, tmp2)
-      else throw (.panic "Input matrix should be triu form.")) (out, (0 : α), (0 : α))
-    pure (out + (tmp1 * yc + tmp2 * xc))) 0
+def quadForm (M : Csc α) (y x : Array α) : MErr α :=
+  if M.n != M.m then throw (.panic "assert n == m") else
+  if x.size != M.n then throw (.panic "assert x.len == n") else
+  if y.size != M.n then throw (.panic "assert y.len == n") else
+  if M.colptr.size != M.n + 1 then throw (.panic "assert colptr.len == n+1") else
+  if M.nzval.size != M.rowval.size then throw (.panic "assert nzval.len == rowval.len") else
+  if M.n == 0 then pure 0 else
+  (List.range M.n).foldlM (quadCol M y x) 0
 
 end gemv
 
@@ -194,18 +208,24 @@ def rscale (M : Csc α) (r : Array α) : MErr (Csc α) := do
     pure ((M.col i).map (fun e => (e.1, e.2 * ri))))
   pure (ofCols M.m M.n cols)
 
+/-- one column of `lrscale`: `*val *= l[*row] * ri` -/
+def lrscaleCol (M : Csc α) (l r : Array α) (i : Nat) : MErr (List (Nat × α)) :=
+  if hi : i < r.size then
+    (M.col i).mapM (fun e => do
+      let lr ← getE l e.1 "l[row]"
+      pure (e.1, e.2 * (lr * r[i])))
+  else pure (M.col i)
+
 /-- `lrscale`: `val *= l[row] * r[col]`; iterates over `r` (columns beyond `r.len()`
 stay unscaled, `r.len() > n` is an index panic) -/
-def lrscale (M : Csc α) (l r : Array α) : MErr (Csc α) := do
-  nzvalMatchesColptr M
-  if r.size > M.n then throw (.panic "colptr[col+1]")
-  let cols ← (List.range M.n).mapM (fun i =>
-    match r[i]? with
-    | none => pure (M.col i)
-    | some ri => (M.col i).mapM (fun e => do
-        let lr ← getE l e.1 "l[row]"
-        pure (e.1, e.2 * (lr * ri))))
-  pure (ofCols M.m M.n cols)
+def lrscale (M : Csc α) (l r : Array α) : MErr (Csc α) :=
+  match nzvalMatchesColptr M with
+  | .error e => .error e
+  | .ok () =>
+    if r.size > M.n then throw (.panic "colptr[col+1]") else
+    match (List.range M.n).mapM (lrscaleCol M l r) with
+    | .error e => .error e
+    | .ok cols => pure (ofCols M.m M.n cols)
 
 end scalings
 
